@@ -221,6 +221,17 @@ theorem wp_expandAll_up (cx : PCtx) (action : Bool) (l : List Bytes) (hl : ∀ b
   rw [← hm, show ({ s with macros := s.macros } : ParseSt) = s from by cases s; rfl]
   exact hQ
 
+theorem wp_expandMac_up (action : Bool) (b : Bytes) (hb : strOK b = true) {Q : Bytes → ParseSt → Prop}
+    {s : ParseSt} {ts : List PTok} (h : Up s ts) (hQ : Q b s) : wp (expandMac action b) Q NoErr True s := by
+  have hm : s.macros = [] := by
+    rcases h with h | ⟨_, _, _, _, h⟩ <;> exact h.mac
+  obtain ⟨_, _, _, h36, _, _, _⟩ := strOK_facts hb
+  unfold wp expandMac
+  rw [hm, expandMacros_plain action b [] (b.length + 1) h36 (by omega)]
+  simp only [List.nil_append]
+  rw [← hm, show ({ s with macros := s.macros } : ParseSt) = s from by cases s; rfl]
+  exact hQ
+
 /-! ## Small parsers -/
 
 /-- `p` reads the tokens `ts0` and returns `v`. -/
